@@ -237,7 +237,7 @@ fn named(p: &mut Prng, env: &Env, depth: u32, in_generic: usize, o: &GenOpts) ->
     }
 }
 
-const FIELD_NAMES: &[&str] = &["a", "b", "c", "d", "e", "f", "g", "h"];
+const FIELD_NAMES: &[&str] = &["a", "b", "c", "d", "e", "f", "g", "h", "i", "j"];
 
 pub fn gen_env(p: &mut Prng, n_decls: usize, o: &GenOpts) -> Env {
     let mut env = Env { decls: vec![] };
@@ -249,13 +249,14 @@ pub fn gen_env(p: &mut Prng, n_decls: usize, o: &GenOpts) -> Env {
         };
         let is_record = p.chance(1, 2);
         let decl = if is_record {
-            let n = 1 + p.below(5) as usize + if p.chance(1, 6) { 3 } else { 0 };
-            let fields = (0..n.min(8))
+            let n = 1 + p.below(5) as usize + if p.chance(1, 6) { 5 } else { 0 };
+            let fields = (0..n.min(10))
                 .map(|k| (FIELD_NAMES[k].to_string(), gen_type(p, &env, 2, generic, o)))
                 .collect();
             Decl::Record { name: format!("R{i}"), generic, fields }
         } else {
-            let nv = 1 + p.below(4) as usize;
+            // up to 7 variants (a tag computed modulo a small number must show)
+            let nv = if p.chance(1, 5) { 5 + p.below(3) as usize } else { 1 + p.below(4) as usize };
             let variants = (0..nv)
                 .map(|v| {
                     let nf = match p.below(8) {
